@@ -76,6 +76,9 @@ func (g *G) tag(s string) { g.Tags[s]++ }
 // Uniform draws an unbiased integer in [lo, hi] (rapid's integer generators favour small
 // values, which would skew every weighted choice towards its first alternative).
 func Uniform(lo, hi int) *rapid.Generator[int] {
+	if hi <= lo {
+		return rapid.Just(lo)
+	}
 	return rapid.Custom(func(t *rapid.T) int {
 		n := hi - lo + 1
 		if n <= 1 {
